@@ -11,6 +11,8 @@ package circularQueue
 // every `range` over the map (verifMapOrder).
 
 import (
+	"sync"
+
 	rtcm "github.com/goblimey/go-ntrip/rtcm/handler"
 )
 
@@ -18,6 +20,7 @@ func init() {
 	verifRegister("VerifC18_Histories", VerifC18_Histories)
 	verifRegister("VerifC18_InductiveStep", VerifC18_InductiveStep)
 	verifRegister("VerifC18_LockDiscipline", VerifC18_LockDiscipline)
+	verifRegister("VerifC18_Concurrent", VerifC18_Concurrent)
 }
 
 func c18Tag(i int) int { return verifInt(c18Name("tag", i)) }
@@ -155,4 +158,95 @@ func VerifC18_LockDiscipline() {
 			}
 		})
 	verifWitness("returned")
+}
+
+// Concurrent use: one adder, one reader taking snapshots meanwhile.  Every
+// snapshot must be a contiguous run of the addition order consistent with
+// real time: the last min(N, m) of the first m messages, for some m between
+// the additions finished before the snapshot started and those started before
+// it returned.  The engine explores the lazy, the round-robin and every
+// one-preemption schedule (switches at lock operations) of one small round;
+// natively the round is repeated with larger numbers on real threads.
+type c18Counter struct {
+	mu sync.Mutex
+	n  int
+}
+
+func (c *c18Counter) inc() {
+	c.mu.Lock()
+	c.n++
+	c.mu.Unlock()
+}
+
+func (c *c18Counter) get() int {
+	c.mu.Lock()
+	defer c.mu.Unlock()
+	return c.n
+}
+
+// c18SnapIs: snap is the last min(n, m) of the messages 1..m.
+func c18SnapIs(snap []rtcm.Message, n, m int) bool {
+	k := m
+	if k > n {
+		k = n
+	}
+	if len(snap) != k {
+		return false
+	}
+	for i := 0; i < k; i++ {
+		if snap[i].MessageType != m-k+1+i {
+			return false
+		}
+	}
+	return true
+}
+
+func c18Round(n, adds, snaps int) bool {
+	q := NewCircularQueue(n)
+	var started, finished c18Counter
+	// the queue is already full when the reader starts: every further
+	// addition evicts
+	for i := 1; i <= n; i++ {
+		started.inc()
+		q.Add(rtcm.Message{MessageType: i})
+		finished.inc()
+	}
+	done := make(chan struct{})
+	go func() {
+		for i := n + 1; i <= adds; i++ {
+			started.inc()
+			q.Add(rtcm.Message{MessageType: i})
+			finished.inc()
+		}
+		close(done)
+	}()
+	ok := true
+	for s := 0; s < snaps; s++ {
+		lo := finished.get()
+		snap := q.GetMessages()
+		hi := started.get()
+		match := false
+		for m := lo; m <= hi; m++ {
+			if c18SnapIs(snap, n, m) {
+				match = true
+			}
+		}
+		ok = ok && match
+	}
+	<-done
+	return ok && c18SnapIs(q.GetMessages(), n, adds)
+}
+
+func VerifC18_Concurrent() {
+	verifOwnPanics()
+	mode := verifParam("schedule", 0, 2)
+	verifSchedule(mode, 1)
+	n := verifParam("capacity", 1, 3)
+	verifWitness("reached")
+	ok := c18Round(n, n+2, 2)
+	for r := 1; r < verifNativeRepeat(); r++ {
+		ok = ok && c18Round(n, 40*(n+2), 80)
+	}
+	verifWitness("returned")
+	verifAssert("every-snapshot-is-a-consistent-contiguous-run", ok)
 }
